@@ -1,11 +1,14 @@
 /-
   Oracle commands for C13 (names, digests, store paths).  All byte strings in hex ("-" = empty).
-    mname <s>                 -> bare=h,ns,m,t full=h,ns,m,t valid=b str=<hex> fp=<hex|!>
+    mname <s>                 -> bare=h,ns,m,t full=h,ns,m,t valid=b str=<hex> fp=<hex|!> disp=<hex> dbare=<hex>
     mpath <s>                 -> h,ns,m,t                         (model.ParseNameFromFilepath)
     nname <n1fixed 0|1> <s>   -> p=h,ns,m,t valid=b fq=b str=.. merged=h,ns,m,t mfq=b mstr=..
     vpart <M|N> <kind> <s>    -> 0|1                              (isValidPart of either package)
-    mp <root> <s>             -> f=scheme,reg,ns,repo,tag path=<hex|!>
-    blobs <root> <s>          -> ok <hex> | err                   (server.GetBlobsPath)
+    mp <root> <s>             -> f=scheme,reg,ns,repo,tag path=<hex|!> full=<hex> short=<hex> nsrepo=<hex>
+    blobs <root> <s>          -> ok <hex> mk=<hex> | err mk=!     (server.GetBlobsPath + the directory its MkdirAll creates)
+    canon <s>                 -> <hex>                            (server.canonicalDigest)
+    enum <n> <rel>*           -> h,ns,m,t=<opened rel>;...         (server.Manifests over the depth-4 regular files, input order)
+    p2n <s>                   -> <hex>                            (blob.pathToName = what DiskCache.Links yields)
     digest <s>                -> ok <sum> <String()> | err        (blob.ParseDigest)
     getfile <dir> <sum>       -> <hex>
     n2p <s>                   -> ok <hex> | err                   (blob.nameToPath)
@@ -53,7 +56,7 @@ def handle (toks : List String) : Option String :=
       let bare := parseNameBare s
       let full := parseName s
       let fp := match filepathM full with | some p => hexOrDash p | none => "!"
-      pure s!"bare={showName bare} full={showName full} valid={b01 (isFQM full)} str={hexOrDash (toStr full)} fp={fp}") rest
+      pure s!"bare={showName bare} full={showName full} valid={b01 (isFQM full)} str={hexOrDash (toStr full)} fp={fp} disp={hexOrDash (displayShortest full)} dbare={hexOrDash (displayShortest bare)}") rest
   | "mpath" :: rest =>
     runTP (do
       let s ← hex
@@ -76,12 +79,26 @@ def handle (toks : List String) : Option String :=
       let s ← hex
       let mp := parseModelPath s
       let p := match mpManifestPath root mp with | some p => hexOrDash p | none => "!"
-      pure s!"f={hexOrDash mp.scheme},{hexOrDash mp.registry},{hexOrDash mp.ns},{hexOrDash mp.repo},{hexOrDash mp.tag} path={p}") rest
+      pure s!"f={hexOrDash mp.scheme},{hexOrDash mp.registry},{hexOrDash mp.ns},{hexOrDash mp.repo},{hexOrDash mp.tag} path={p} full={hexOrDash mp.fullTagname} short={hexOrDash mp.shortTagname} nsrepo={hexOrDash mp.namespaceRepository}") rest
   | "blobs" :: rest =>
     runTP (do
       let root ← hex
       let s ← hex
-      pure (showOpt (getBlobsPath root s))) rest
+      let mk := match getBlobsMkdir root s with | some d => hexOrDash d | none => "!"
+      pure s!"{showOpt (getBlobsPath root s)} mk={mk}") rest
+  | "canon" :: rest =>
+    runTP (do
+      let s ← hex
+      pure (hexOrDash (canonicalDigest s))) rest
+  | "enum" :: rest =>
+    runTP (do
+      let rels ← listOf hex
+      let shown := (manifestsEnum rels).map fun (n, p) => s!"{showName n}={hexOrDash p}"
+      pure (if shown.isEmpty then "-" else joinWith ";" shown)) rest
+  | "p2n" :: rest =>
+    runTP (do
+      let s ← hex
+      pure (hexOrDash (pathToName s))) rest
   | "digest" :: rest =>
     runTP (do
       let s ← hex
